@@ -130,6 +130,14 @@ iteration consumes at least one unit of it (`run_no_spin`).  (The real loop has 
 device.) -/
 theorem C14_run_fuel_suffices (s : St) : runMeasure s < runFuel s := runMeasure_lt_runFuel s
 
+/-- **The loop of `poll_expired` ends by itself.**  `in_flight_requests.poll_expired` loops (`continue`) when it
+re-arms a clamped deadline timer; every re-arm takes at least 1 ns off the entry's `deadline_remainder`, so the loop
+runs at most `expiredFuel s - 1` = (sum of the remainders) times more than once: giving the model's loop more fuel
+than `expiredFuel s` changes nothing — it never ends because the fuel ran out.  Holds in every state. -/
+theorem C14_poll_expired_fuel_suffices (s : St) (now fuel : Nat) (h : expiredFuel s ≤ fuel) :
+    pollExpiredLoop fuel s now = pollExpired s now :=
+  pollExpired_fuel_adequate s now fuel h
+
 /-- **C14 (3), no spin, one poll.**  With the fixed `ensure_writeable`, a dispatch poll started in *any* state
 observes no `Obs.spin`. -/
 theorem C14_no_spin_poll (s : St) (now : Nat) (hel : s.ensureLoop = false) :
